@@ -638,6 +638,49 @@ def check_trees(case):
     return _check_expr(case, check_type=True)
 
 
+def _thaw(o):
+    """cases are literals: a frozenset label is written ('__fs__', members...)"""
+    if isinstance(o, tuple):
+        if o and o[0] == '__fs__':
+            return frozenset(_thaw(x) for x in o[1:])
+        return tuple(_thaw(x) for x in o)
+    if isinstance(o, list):
+        return [_thaw(x) for x in o]
+    if isinstance(o, dict):
+        return {_thaw(k): _thaw(v) for k, v in o.items()}
+    return o
+
+
+FS_LBL = [('__fs__', 0, 1), ('__fs__', 0, 1, 2), ('__fs__', 5), ('__fs__', 1, 2), ('__fs__', 2)]
+
+
+def _gen_partial_order(ctx):
+    rng = ctx.rng("c05.fslabels")
+    for spin in (False, True):
+        for T in _types(spin):
+            if T in MATRIX_TYPES:
+                continue
+            deg2 = T in DEG2_TYPES
+            for combo in itertools.combinations(FS_LBL, 2 if deg2 else 3):
+                perms = list(itertools.permutations(combo))
+                for p, q in zip(perms, perms[1:] + perms[:1]):
+                    yield {"kind": _kind(spin), "expr": ("-", ("m", T, {p: 3, (p[0],): 1}), ("m", T, {q: 3, (q[-1],): -2}))}
+            for _ in range(ctx.pick(10, 200)):
+                labels = rng.sample(FS_LBL, 3)
+                yield {"kind": _kind(spin), "expr": (rng.choice(["+", "-", "*"]),
+                                                     _operand(rng, T, labels, spin, maxlen=2, max_terms=2),
+                                                     _operand(rng, rng.choice([T, "dict"]), labels, spin, maxlen=2, max_terms=2))}
+
+
+@clause("C05.partially_ordered_labels", "C05", gen=_gen_partial_order, nontrivial=_nonconstant)
+def check_partial_order(case):
+    """the arithmetic contract of C05.add_sub / C05.mul over hashable labels whose own `<` is only a partial order
+    (frozensets: `<` is the subset relation): the same monomial written with its labels in any order must land
+    under one stored key, so that models denoting the same function compare equal and their difference is empty.
+    Non-trivial: result is non-constant."""
+    return _check_expr(dict(case, expr=_thaw(case["expr"])))
+
+
 NUM_LBL = [1, 2.5, 0, -0.5]      # numeric labels of two types: native `<` and ordering_key disagree on them
 
 
